@@ -7,7 +7,7 @@ NAME = 'unesc'
 ASSUMPTIONS = [
     'std::string::operator+=(char) and std::string::append(const char*, size_t) are modelled by assumed contracts "appends exactly these bytes to the ghost output buffer"',
     'unhex_string is proved for digit strings of length <= 8 (complete unwinding): the lengths used by the unescape actions (2, 4, 8)',
-    'unescape_j::apply is proved for one or two consecutive \\\\uXXXX escapes (action input sizes 5 and 11), complete unwinding',
+    'unescape_j::apply is proved for one, two or three consecutive \\\\uXXXX escapes (action input sizes 5, 11 and 17), complete unwinding',
 ]
 
 TU_EXTRA = r'''
@@ -43,6 +43,21 @@ unsigned g_cp[4]; size_t g_ncp; int g_cp_ok[4];
 #define ISX(c) (((c) >= '0' && (c) <= '9') || ((c) >= 'a' && (c) <= 'f') || ((c) >= 'A' && (c) <= 'F'))
 static inline unsigned vf_hexval(char c) { return (c >= '0' && c <= '9') ? (unsigned)(c - '0') : (c >= 'a' && c <= 'f') ? (unsigned)(c - 'a' + 10) : (unsigned)(c - 'A' + 10); }
 static inline unsigned long vf_hex(const char* p, size_t n) { unsigned long v = 0; for (size_t i = 0; i < 8; ++i) if (i < n) v = v * 16 + vf_hexval(p[i]); return v; }
+/* documented behaviour of unescape_j on k = (size + 1) / 6 <= 3 consecutive \\uXXXX escapes: left to right, a high surrogate directly followed by
+   a low one is combined, every other value is encoded individually, the first non-scalar value (lone surrogate) ends the run with an error.
+   what: 0 = number of code points handed to utf8_append_utf32, 1 = all accepted, 2 + j = the j-th code point */
+static inline unsigned long vf_uj(const char* sp, size_t size, int what)
+{
+  size_t k = (size + 1) / 6; unsigned v[3] = { 0, 0, 0 }; unsigned cp[3] = { 0, 0, 0 };
+  for (int j = 0; j < 3; ++j) if ((size_t)j < k) v[j] = (unsigned)vf_hex(sp + 1 + 6 * j, 4);
+  size_t n = 0, i = 0; _Bool ok = 1;
+  for (int it = 0; it < 3; ++it) if (ok && i < k) {
+    unsigned c = v[i];
+    if (c >= 0xD800u && c <= 0xDBFFu && i + 1 < k && v[i + 1] >= 0xDC00u && v[i + 1] <= 0xDFFFu) { cp[n++] = 0x10000u + (((c & 0x3FFu) << 10) | (v[i + 1] & 0x3FFu)); i += 2; }
+    else { cp[n++] = c; if (c >= 0xD800u && c <= 0xDFFFu) ok = 0; i += 1; }
+  }
+  return what == 0 ? n : what == 1 ? ok : cp[what - 2];
+}
 '''
 
 PLUS_EQ = Contract(R('g_out_n < 12', 'string-model'), Clause('assigns', 'g_out_n, g_out[g_out_n]'),
@@ -112,7 +127,7 @@ def jobs(tier):
     def append_log(fi):
         return Contract(R('g_ncp < 4', 'log'), Clause('assigns', 'g_ncp, __CPROVER_object_whole(g_cp), *string'),
                         E('g_ncp == OLD(g_ncp) + 1 && g_cp[OLD(g_ncp)] == utf32 && RET == vf_is_scalar(utf32)', 'stub'),
-                        E('(OLD(g_ncp) >= 1 ==> g_cp[0] == OLD(g_cp[0])) && (OLD(g_ncp) >= 2 ==> g_cp[1] == OLD(g_cp[1]))', 'stub'))
+                        E('(OLD(g_ncp) >= 1 ==> g_cp[0] == OLD(g_cp[0])) && (OLD(g_ncp) >= 2 ==> g_cp[1] == OLD(g_cp[1])) && (OLD(g_ncp) >= 3 ==> g_cp[2] == OLD(g_cp[2]))', 'stub'))
 
     def unhex_stub(fi):
         return Contract(R('__CPROVER_same_object(begin, end) && OFF(end) == OFF(begin) + 4 && __CPROVER_r_ok(begin, 4) && ISX(begin[0]) && ISX(begin[1]) && ISX(begin[2]) && ISX(begin[3])',
@@ -124,20 +139,20 @@ def jobs(tier):
     HIGH = '(%s >= 0xD800u && %s <= 0xDBFFu)' % (C_, C_)
     LOW = '(%s >= 0xDC00u && %s <= 0xDFFFu)' % (D_, D_)
     con = Contract(R('__CPROVER_r_ok(in, sizeof(*in)) && __CPROVER_r_ok(in->m_input, sizeof(*in->m_input)) && g_span == in->m_begin.data && __CPROVER_same_object(g_span, in->m_input->_b0.m_current.data)'
-                     ' && (g_size == 5 || g_size == 11) && OFF(in->m_input->_b0.m_current.data) == OFF(g_span) + g_size && __CPROVER_r_ok(g_span, g_size)'
+                     ' && (g_size == 5 || g_size == 11 || g_size == 17) && OFF(in->m_input->_b0.m_current.data) == OFF(g_span) + g_size && __CPROVER_r_ok(g_span, g_size)'
                      ' && ISX(g_span[1]) && ISX(g_span[2]) && ISX(g_span[3]) && ISX(g_span[4])'
-                     ' && (g_size == 11 ==> (ISX(g_span[7]) && ISX(g_span[8]) && ISX(g_span[9]) && ISX(g_span[10])))'
+                     ' && (g_size >= 11 ==> (ISX(g_span[7]) && ISX(g_span[8]) && ISX(g_span[9]) && ISX(g_span[10])))'
+                     ' && (g_size == 17 ==> (ISX(g_span[13]) && ISX(g_span[14]) && ISX(g_span[15]) && ISX(g_span[16])))'
                      ' && g_ncp == 0 && vf_exc.pending == 0 && vf_exc_counter < 1000', 'documented-precondition-size-plus-1-multiple-of-6'),
                    Clause('assigns', 'g_ncp, __CPROVER_object_whole(g_cp), *s, vf_exc, vf_exc_counter'),
-                   E('g_size == 5 ==> (g_ncp == 1 && g_cp[0] == %s && (vf_is_scalar(%s) ? (RET && !vf_exc.pending) : vf_exc.pending != 0))' % (C_, C_), 'UNESCAPE-J-SINGLE-ESCAPE-ENCODED-INDIVIDUALLY-LONE-SURROGATE-REJECTED', P),
-                   E('(g_size == 11 && %s && %s) ==> (g_ncp == 1 && g_cp[0] == 0x10000u + (((%s & 0x3FFu) << 10) | (%s & 0x3FFu)) && RET && !vf_exc.pending)' % (HIGH, LOW, C_, D_),
-                     'UNESCAPE-J-COMBINES-HIGH-LOW-SURROGATE-PAIR', P),
-                   E('(g_size == 11 && !(%s && %s)) ==> (g_cp[0] == %s && (vf_is_scalar(%s) ? (g_ncp == 2 && g_cp[1] == %s && (vf_is_scalar(%s) ? (RET && !vf_exc.pending) : vf_exc.pending != 0))'
-                     ' : (g_ncp == 1 && vf_exc.pending != 0)))' % (HIGH, LOW, C_, C_, D_, D_), 'UNESCAPE-J-OTHER-ESCAPES-INDIVIDUALLY-LONE-SURROGATES-REJECTED', P),
+                   E('g_ncp == vf_uj(g_span, g_size, 0)', 'UNESCAPE-J-PAIRS-COMBINED-OTHERS-INDIVIDUALLY-IN-ORDER', P),
+                   E('(g_ncp >= 1 ==> g_cp[0] == (unsigned)vf_uj(g_span, g_size, 2)) && (g_ncp >= 2 ==> g_cp[1] == (unsigned)vf_uj(g_span, g_size, 3)) && (g_ncp >= 3 ==> g_cp[2] == (unsigned)vf_uj(g_span, g_size, 4))',
+                     'UNESCAPE-J-CODE-POINTS-EXACT', P),
+                   E('vf_uj(g_span, g_size, 1) ? (RET && !vf_exc.pending) : vf_exc.pending != 0', 'UNESCAPE-J-LONE-SURROGATE-REJECTED-EVERYTHING-ELSE-ACCEPTED', P),
                    E('vf_canary', 'canary_exit'))
     out.append(Job('unescape_j', NAME, 'unescape_j', con, ('C17', 'C03'), prelude=PRE + 'const char* g_span; size_t g_size;\n',
                    stubs=[(r'^tao::pegtl::unescape::utf8_append_utf32\(', append_log), (r'unescape::unhex_string<unsigned int>\(', unhex_stub)], unwind=10, flags=['--object-bits', '11'], solver='minisat',
-                   harness='int main(void) { size_t n; __CPROVER_assume(n == 5 || n == 11); char* b = malloc(n + 8); /* 8 bytes of slack: unescape_j forms b + 6 and b + 10 before comparing with end() */ __CPROVER_assume(b != 0); vf_InE inp; inp._b0.m_begin = b; inp._b0.m_end = b + n; inp._b0.m_current.data = b + n;'
+                   harness='int main(void) { size_t n; __CPROVER_assume(n == 5 || n == 11 || n == 17); char* b = malloc(n + 8); /* 8 bytes of slack: unescape_j forms b + 6 and b + 10 before comparing with end() */ __CPROVER_assume(b != 0); vf_InE inp; inp._b0.m_begin = b; inp._b0.m_end = b + n; inp._b0.m_current.data = b + n;'
                            ' vf_AI ai; ai.m_begin.data = b; ai.m_input = &inp; struct $REC{std::basic_string<char>} s; g_span = b; g_size = n; g_ncp = 0; vf_exc.pending = 0; __CPROVER_assume(vf_exc_counter < 1000); $ENTRY(&ai, &s); return 0; }',
-                   expect_fail_canary=('canary_exit',), desc='unescape_j::apply on one or two \\\\uXXXX escapes (complete unwinding)'))
+                   expect_fail_canary=('canary_exit',), desc='unescape_j::apply on one, two or three \\\\uXXXX escapes (complete unwinding)'))
     return out
